@@ -14,7 +14,7 @@ import twins
 
 META = {
     "level": "other",
-    "technique": "static analysis: evaluated-constant relations, MIR isomorphism of twin implementations modulo a named substitution, provenance of the cached count (rustc_private driver)",
+    "technique": "static analysis: evaluated-constant relations, MIR isomorphism of twin implementations modulo a named substitution, provenance of the cached count, store/read agreement of the select layout, raw-value propagation from the BitVector query entry points (rustc_private driver; bodies normalised by helper inlining and combinator expansion)",
     "explanation": "The arithmetic of rank/select is not decided. What is decided are five necessary conditions the test suite cannot see: "
                    "(1) the sampling constants (block, superblock, masks, relative-rank packing) satisfy the relations the algorithms assume, "
                    "and BitVector::load validates with the same constants; (2) each pair of twin implementations -- SelectSupport::select "
